@@ -4,6 +4,7 @@ import CookModel.Lemmas.ParsedScaledRefs
 import CookModel.Props.C09
 import CookModel.Lemmas.GroupWhole
 import CookModel.Lemmas.GroupOutcome
+import CookModel.Props.C08
 /-
   C10  Grouping and listing ingredients conserves quantities.
 
@@ -851,5 +852,81 @@ example : ((fromRecipe idOrd cB twoDefs).map
     foldOutcome [.scaled, .error, .fixed] 0 [2, 1] = some .error ∧
     foldOutcome [.scaled, .noQuantity] 0 [1] = some .scaled := by
   decide +kernel
+
+-- ===== w10c10fold =====
+
+/-- **The outcome reported for a grouped ingredient of THIS scaled recipe** (`group_ingredients` run on what
+    `parse` + `scale(factor)` returned; instance of `C10_grouped_outcome` with the outcome vector `scale` actually
+    produced, `C08_outcomes_align`, and the reference tables C06 guarantees, `C10_parsed_recipe_consistent`).
+    For every input, environment, converter and factor, and for the ingredient at ANY index `d` of the scaled recipe
+    (in the code: every definition):
+    * the outcome vector has an entry `own` for `d`, and an entry for each `referenced_from` index — the fold never
+      hits the index panic;
+    * each of these entries is the outcome of the PARSED ingredient at that index (`outcomeOf`: no quantity / `Fixed`
+      / `Scaled`), and none is `Error`;
+    * the fold is `Fixed` if the definition or one of its references was fixed, else the definition's own outcome —
+      the outcomes of exactly `d :: referenced_from` (`groupIndices`) and of nothing else. -/
+theorem C10_grouped_outcome_of_scaled (env : Env) (input : Str) (c : Col Rat)
+    (h : (parseRecipe (α := Rat) env input).output = some c) (cv : Converter Rat) (f : Rat)
+    (d : Nat) (i : Ingredient (Value Rat))
+    (hd : (recipeScale cv c.toRecipe f).1.ingredients[d]? = some i) :
+    ∃ own, (recipeScale cv c.toRecipe f).2.ingredients[d]? = some own ∧
+      (∀ j ∈ groupIndices i d, ∃ o ij, (recipeScale cv c.toRecipe f).2.ingredients[j]? = some o ∧
+        c.ingredients[j]? = some ij ∧ o = outcomeOf (ij.quantity.map (·.value)) ∧ o ≠ .error) ∧
+      foldOutcome (recipeScale cv c.toRecipe f).2.ingredients d i.relation.relation.referencedFrom =
+        some (if (groupIndices i d).any
+            (fun j => decide ((recipeScale cv c.toRecipe f).2.ingredients[j]? = some .fixed)) then .fixed else own) := by
+  have hps : ParsedScaled (recipeScale cv c.toRecipe f).1 := ⟨env, input, c, h, Or.inl ⟨cv, f, rfl⟩⟩
+  have hrange := (C10_parsed_recipe_consistent hps).2
+  obtain ⟨halign, _, _, hlen, _, _⟩ := C08_outcomes_align cv c.toRecipe f
+  have hnoerr := (C08_parsed_recipe_outcomes env input c h cv c.toRecipe rfl rfl rfl f).1
+  have hdlt : d < (recipeScale cv c.toRecipe f).1.ingredients.length := (List.getElem?_eq_some_iff.mp hd).1
+  have hrefs : ∀ j ∈ i.relation.relation.referencedFrom, j < (recipeScale cv c.toRecipe f).2.ingredients.length := by
+    intro j hj
+    rw [hlen]
+    exact hrange i (List.mem_of_getElem? hd) j hj
+  have hentry : ∀ j, j < (recipeScale cv c.toRecipe f).2.ingredients.length →
+      ∃ o ij, (recipeScale cv c.toRecipe f).2.ingredients[j]? = some o ∧
+        c.ingredients[j]? = some ij ∧ o = outcomeOf (ij.quantity.map (·.value)) ∧ o ≠ .error := by
+    intro j hj
+    have hj' : j < c.ingredients.toList.length := by
+      have := hj
+      rw [halign] at this
+      simpa [Col.toRecipe] using this
+    have hq : (recipeScale cv c.toRecipe f).2.ingredients[j]? =
+        some (outcomeOf ((c.ingredients.toList[j]).quantity.map (·.value))) := by
+      rw [halign, List.getElem?_map]
+      simp [Col.toRecipe, List.getElem?_eq_getElem hj']
+    refine ⟨_, c.ingredients.toList[j], hq, ?_, rfl, hnoerr _ (List.mem_of_getElem? hq)⟩
+    rw [← Array.getElem?_toList]; exact List.getElem?_eq_getElem hj'
+  have hdo : d < (recipeScale cv c.toRecipe f).2.ingredients.length := by rw [hlen]; exact hdlt
+  refine ⟨(recipeScale cv c.toRecipe f).2.ingredients[d], List.getElem?_eq_getElem hdo, ?_, ?_⟩
+  · intro j hj
+    rcases List.mem_cons.mp hj with rfl | hj
+    · exact hentry _ hdo
+    · exact hentry j (hrefs j hj)
+  · rw [C10_grouped_outcome _ d _ _ (List.getElem?_eq_getElem hdo) hrefs]
+    have hne : (d :: i.relation.relation.referencedFrom).any
+        (fun j => decide ((recipeScale cv c.toRecipe f).2.ingredients[j]? = some .error)) = false := by
+      rw [List.any_eq_false]
+      intro j _ hje
+      have hje := of_decide_eq_true hje
+      exact hnoerr _ (List.mem_of_getElem? hje) rfl
+    rw [hne]
+    rfl
+
+/-- an environment with the component-modifier extension (so `@&a` is a reference), no known units -/
+def C10_exEnvRefs : Env :=
+  ⟨toyCharSpec, ⟨Gen.EXT_COMPONENT_MODIFIERS⟩, fun _ => none, fun _ _ => .ok, fun c => [c], 0⟩
+
+/-- the hypotheses of `C10_grouped_outcome_of_scaled` are satisfiable and the statement speaks about something:
+    `@a{1}`, `@&a{=2}`, `@b` parses to a definition with `referenced_from = [1]`; scaled by 2 with the bundled
+    converter the outcomes are `Scaled, Fixed, NoQuantity`, and the definition's group (indices 0 and 1) folds to
+    `Fixed` — `@b`'s `NoQuantity` at index 2 plays no part -/
+example : ((parseRecipe (α := Rat) C10_exEnvRefs "@a{1}\n\n@&a{=2}\n\n@b\n".toList).output.map (fun c =>
+   ((recipeScale (Converter.bundled Rat) c.toRecipe 2).1.ingredients.map (·.relation.relation.referencedFrom),
+    (recipeScale (Converter.bundled Rat) c.toRecipe 2).2.ingredients,
+    foldOutcome (recipeScale (Converter.bundled Rat) c.toRecipe 2).2.ingredients 0 [1]))) =
+   some ([[1], [], []], [.scaled, .fixed, .noQuantity], some .fixed) := by decide +kernel
 
 end Cook
